@@ -253,14 +253,16 @@ package pokertable
 // ---- pokerface helpers (dependency; verified against the module-cache source) ------------------
 
 //@ spec hasAct(gs, idx, a) = 0 <= idx && idx < len(gs.Players) && gs.Players[idx] != nil
-//@     && exists(j, 0, len(gs.Players[idx].AllowedActions), gs.Players[idx].AllowedActions[j] == a)
+//@     && exists(j, 0, 10, j < len(gs.Players[idx].AllowedActions) && gs.Players[idx].AllowedActions[j] == a)
 //@ spec hasPos(gs, idx, p) = 0 <= idx && idx < len(gs.Players) && gs.Players[idx] != nil
-//@     && exists(j, 0, len(gs.Players[idx].Positions), gs.Players[idx].Positions[j] == p)
+//@     && exists(j, 0, 10, j < len(gs.Players[idx].Positions) && gs.Players[idx].Positions[j] == p)
+
+//@ spec ListsOK(gs, idx) = 0 <= idx && idx < len(gs.Players) && gs.Players[idx] != nil ==> len(gs.Players[idx].AllowedActions) <= 10 && len(gs.Players[idx].Positions) <= 10
 
 //@ func extern github.com/weedbox/pokerface::(*GameState).HasAction
 //@   property C10 C18 C19
 //@   returns r
-//@   requires gs != nil
+//@   requires gs != nil && (0 <= idx && idx < len(gs.Players) && gs.Players[idx] != nil ==> len(gs.Players[idx].AllowedActions) <= 10)
 //@   modifies nothing
 //@   loop 0 invariant -1 <= rangeindex && rangeindex < len(gs.Players[idx].AllowedActions)
 //@             && forall(j, 0, rangeindex + 1, gs.Players[idx].AllowedActions[j] != action)
@@ -270,7 +272,7 @@ package pokertable
 //@ func extern github.com/weedbox/pokerface::(*GameState).HasPosition
 //@   property C11 C18 C19
 //@   returns r
-//@   requires gs != nil
+//@   requires gs != nil && (0 <= idx && idx < len(gs.Players) && gs.Players[idx] != nil ==> len(gs.Players[idx].Positions) <= 10)
 //@   modifies nothing
 //@   loop 0 invariant -1 <= rangeindex && rangeindex < len(gs.Players[idx].Positions)
 //@             && forall(j, 0, rangeindex + 1, gs.Players[idx].Positions[j] != position)
@@ -372,7 +374,7 @@ package pokertable
 //@ func (*game).Ready
 //@   property C10 C13
 //@   returns r, err
-//@   requires g != nil && g.gs != nil
+//@   requires g != nil && g.gs != nil && ListsOK(g.gs, playerIdx)
 //@   modifies log
 //@   ensures not-asked-refused: !old(hasAct(g.gs, playerIdx, "ready")) ==> err != nil && noCall()
 //@   ensures accepted: old(hasAct(g.gs, playerIdx, "ready")) && g.rg != nil ==> err == nil && ncalls() == old(ncalls()) + 1
@@ -807,3 +809,123 @@ package pokertable
 //@   ensures has-chips-refreshed: err == nil ==> forall(i, 0, 10, i < len(PS(te)) ==> (te.sm.SeatData[PS(te)[i].Seat].HasChips <==> PS(te)[i].Bankroll > 0))
 //@   ensures eligibility-mirrored: err == nil ==> forall(i, 0, 10, i < len(PS(te)) ==> (PS(te)[i].IsParticipated <==> ActiveAt(te.sm, PS(te)[i].Seat)))
 //@   ensures inv: TableWF(te) && Coupled(te)
+
+// ---- opening a hand (C05 C07 C12) ------------------------------------------------------------------
+
+// Table.Clone is a JSON round trip: modelled (trusted) as a deep copy — a fresh object graph, field-wise equal.
+//@ spec playerCopied(a, b) = a != nil && a.PlayerID == b.PlayerID && a.Seat == b.Seat && a.Bankroll == b.Bankroll && a.IsIn == b.IsIn && a.IsParticipated == b.IsParticipated
+//@       && a.GameStatistics == b.GameStatistics
+//@ func (Table).Clone
+//@   trusted JSON round trip (encoding/json Marshal + Unmarshal): a fresh, disjoint object graph, field-wise equal on the fields the contracts mention
+//@   returns c, err
+//@   requires t.State != nil
+//@   modifies nothing
+//@   allocates
+//@   ensures err == nil ==> c != nil && fresh(c) && c.State != nil && fresh(c.State) && c.ID == t.ID && c.Meta == t.Meta && c.UpdateSerial == t.UpdateSerial
+//@             && c.State.Status == t.State.Status && c.State.GameCount == t.State.GameCount && c.State.StartAt == t.State.StartAt
+//@             && c.State.CurrentActionEndAt == t.State.CurrentActionEndAt && c.State.GameState == nil == (t.State.GameState == nil)
+//@             && len(c.State.PlayerStates) == len(t.State.PlayerStates) && fresh(c.State.PlayerStates)
+//@             && forall(i, 0, 10, i < len(t.State.PlayerStates) ==> fresh(c.State.PlayerStates[i]) && playerCopied(c.State.PlayerStates[i], t.State.PlayerStates[i]))
+//@             && forall(i, 0, 10, forall(j, 0, 10, i < j && j < len(t.State.PlayerStates) ==> c.State.PlayerStates[i] != c.State.PlayerStates[j]))
+//@             && len(c.State.SeatMap) == len(t.State.SeatMap) && fresh(c.State.SeatMap) && forall(s, 0, 10, s < len(t.State.SeatMap) ==> c.State.SeatMap[s] == t.State.SeatMap[s])
+//@             && len(c.State.GamePlayerIndexes) == len(t.State.GamePlayerIndexes)
+//@             && (t.State.BlindState != nil ==> c.State.BlindState != nil && fresh(c.State.BlindState) && c.State.BlindState.Level == t.State.BlindState.Level
+//@                   && c.State.BlindState.Ante == t.State.BlindState.Ante && c.State.BlindState.Dealer == t.State.BlindState.Dealer
+//@                   && c.State.BlindState.SB == t.State.BlindState.SB && c.State.BlindState.BB == t.State.BlindState.BB)
+//@   ensures err != nil ==> c == nil
+
+//@ func (*tableEngine).calcGamePlayerIndexes
+//@   trusted placeholder until the C02 contract lands: builds a list of indexes of participating players, touches nothing
+//@   returns r
+//@   modifies nothing
+//@   allocates
+//@   ensures fresh(r) && 0 <= len(r) && len(r) <= len(players) && forall(k, 0, 10, k < len(r) ==> 0 <= r[k] && r[k] < len(players) && players[r[k]].IsParticipated)
+
+//@ func (*tableEngine).updatePlayerPositions
+//@   trusted placeholder until the C06 contract lands: writes only the Positions of the given players
+//@   modifies forall(i, 0, 10, i < len(players) ==> players[i].Positions)
+//@   allocates
+
+//@ func (TableBlindState).IsSet
+//@   inline
+//@ func (TableBlindState).IsBreaking
+//@   inline
+
+//@ func (*tableEngine).openGame
+//@   property C05 C07 C12
+//@   returns nt, err
+//@   config M 2..10 : te.table.Meta.TableMaxSeatCount = M, te.sm.MaxSeat = M, len(te.sm.SeatData) = M
+//@   requires TableWF(te) && Coupled(te) && oldTable == te.table && St(te).BlindState != nil
+//@   modifies te.sm.DealerSeatID, te.sm.SBSeatID, te.sm.BBSeatID, te.sm.IsInit, forall(s, 0, M, te.sm.SeatData[s].IsBetweenDealerBB)
+//@   loop 0 unroll 10
+//@   ensures blinds-not-set-refused: !(St(te).BlindState.Level != 0 && St(te).BlindState.Ante != -1 && St(te).BlindState.Dealer != -1 && St(te).BlindState.SB != -1 && St(te).BlindState.BB != -1)
+//@             ==> err == ErrTableOpenGameFailed && nt == oldTable
+//@   ensures break-refused: St(te).BlindState.Level == -1 ==> err != nil && nt == oldTable
+//@   ensures refused-returns-the-old-table: err != nil ==> nt == oldTable
+//@   ensures old-table-untouched: St(te).Status == old(St(te).Status) && St(te).GameCount == old(St(te).GameCount) && playersSame(te) && seatsSame(te)
+//@   ensures opened-on-a-copy: err == nil ==> nt != nil && fresh(nt) && nt != oldTable && nt.State != nil && nt.State.Status == TableStateStatus_TableGameOpened
+//@             && nt.State.GameCount == St(te).GameCount + 1
+//@             && nt.State.CurrentDealerSeat == te.sm.DealerSeatID && nt.State.CurrentSBSeat == te.sm.SBSeatID && nt.State.CurrentBBSeat == te.sm.BBSeatID
+//@   ensures exactly-the-eligible-are-dealt-in: err == nil ==> len(nt.State.PlayerStates) == len(PS(te))
+//@             && forall(i, 0, 10, i < len(PS(te)) ==> (nt.State.PlayerStates[i].IsParticipated <==> ActiveAt(te.sm, PS(te)[i].Seat)))
+//@   ensures at-least-two-dealt-in: err == nil ==> activeCount(te.sm) >= 2
+//@   ensures seat-manager-inv: SmWF(te.sm)
+
+// ---- game.go: engine-driven steps (C11, C13) ------------------------------------------------------
+
+//@ func extern github.com/weedbox/pokerface::(*PlayerState).AllowAction
+//@   property C11
+//@   requires ps != nil && 0 <= len(ps.AllowedActions) && len(ps.AllowedActions) <= 9
+//@   modifies ps.AllowedActions
+//@   loop 0 unroll 9
+//@   ensures allowed-now: exists(j, 0, 10, j < len(ps.AllowedActions) && ps.AllowedActions[j] == action)
+//@   ensures others-kept: len(ps.AllowedActions) <= old(len(ps.AllowedActions)) + 1 && forall(j, 0, 9, j < old(len(ps.AllowedActions)) ==> ps.AllowedActions[j] == old(ps.AllowedActions[j]))
+
+//@ spec GsPlayersOK(gs) = gs != nil && 0 <= len(gs.Players) && len(gs.Players) <= 10 && forall(k, 0, 10, k < len(gs.Players) ==> gs.Players[k] != nil
+//@       && 0 <= len(gs.Players[k].AllowedActions) && len(gs.Players[k].AllowedActions) <= 8 && 0 <= len(gs.Players[k].Positions) && len(gs.Players[k].Positions) <= 10)
+//@     && forall(a, 0, 10, forall(b, 0, 10, a < b && b < len(gs.Players) ==> gs.Players[a] != gs.Players[b]))
+//@ spec rgCall(i, name, g) = callfn(i) == name && callrecv(i) == ref(g.rg)
+//@ spec armed(g) = rgCall(old(ncalls()), "(*syncsaga.ReadyGroup).Stop", g) && rgCall(old(ncalls()) + 1, "(*syncsaga.ReadyGroup).OnCompleted", g)
+//@       && rgCall(old(ncalls()) + 2, "(*syncsaga.ReadyGroup).ResetParticipants", g) && rgCall(ncalls() - 1, "(*syncsaga.ReadyGroup).Start", g)
+//@ spec askedAt(i, g, idx) = rgCall(i, "(*syncsaga.ReadyGroup).Add", g) && callarg(i, 0) == idx && !callargb(i, 0)
+
+//@ func (*game).onReadyRequested
+//@   property C11
+//@   requires g != nil && g.rg != nil && GsPlayersOK(gs)
+//@   modifies forall(k, 0, 10, k < len(gs.Players) ==> gs.Players[k].AllowedActions), log
+//@   loop 0 unroll 10
+//@   ensures group-rearmed: armed(g) && ncalls() == old(ncalls()) + 4 + len(gs.Players)
+//@   ensures everyone-is-asked: forall(k, 0, 10, k < len(gs.Players) ==> askedAt(old(ncalls()) + 3 + k, g, gs.Players[k].Idx) && hasAct(gs, k, "ready"))
+
+//@ func (*game).onAnteRequested
+//@   property C11
+//@   requires g != nil && g.rg != nil && GsPlayersOK(gs)
+//@   modifies forall(k, 0, 10, k < len(gs.Players) ==> gs.Players[k].AllowedActions), log
+//@   loop 0 unroll 10
+//@   ensures no-ante-nobody-asked: gs.Meta.Ante == 0 ==> noCall()
+//@   ensures group-rearmed: gs.Meta.Ante != 0 ==> armed(g) && ncalls() == old(ncalls()) + 4 + len(gs.Players)
+//@   ensures everyone-is-asked: gs.Meta.Ante != 0 ==> forall(k, 0, 10, k < len(gs.Players) ==> askedAt(old(ncalls()) + 3 + k, g, gs.Players[k].Idx) && hasAct(gs, k, "pay"))
+
+//@ spec owesBlind(gs, k) = (gs.Meta.Blind.BB > 0 && old(hasPos(gs, gs.Players[k].Idx, "bb"))) || (gs.Meta.Blind.SB > 0 && old(hasPos(gs, gs.Players[k].Idx, "sb")))
+//@       || (gs.Meta.Blind.Dealer > 0 && old(hasPos(gs, gs.Players[k].Idx, "dealer")))
+
+//@ func (*game).onBlindsRequested
+//@   property C11
+//@   requires g != nil && g.rg != nil && GsPlayersOK(gs)
+//@   modifies forall(k, 0, 10, k < len(gs.Players) ==> gs.Players[k].AllowedActions), log
+//@   loop 0 unroll 10
+//@   ensures group-rearmed: armed(g) && ncalls() <= old(ncalls()) + 4 + len(gs.Players)
+//@   ensures blind-positions-are-asked: forall(k, 0, 10, k < len(gs.Players) && owesBlind(gs, k) ==>
+//@             exists(j, 0, 10, old(ncalls()) + 3 + j < ncalls() - 1 && askedAt(old(ncalls()) + 3 + j, g, gs.Players[k].Idx)) && hasAct(gs, k, "pay"))
+//@   ensures nobody-else-is-asked: forall(j, 0, 10, old(ncalls()) + 3 + j < ncalls() - 1 ==>
+//@             exists(k, 0, 10, k < len(gs.Players) && owesBlind(gs, k) && askedAt(old(ncalls()) + 3 + j, g, gs.Players[k].Idx)))
+
+//@ func (*game).onRoundClosed
+//@   property C11 C13
+//@   requires g != nil && gs != nil
+//@   modifies g.gs, log
+//@   ensures next-round-by-itself: callfn(old(ncalls())) == "callback:onGameRoundClosed" && callfn(old(ncalls()) + 1) == "pokertable.GameBackend.Next"
+//@             && callarg(old(ncalls()) + 1, 0) == ref(gs) && ncalls() == old(ncalls()) + 3
+//@   ensures failure-is-reported-not-lost: callres(old(ncalls()) + 1, 1) != 0 ==> callfn(old(ncalls()) + 2) == "callback:onGameErrorUpdated"
+//@             && callarg(old(ncalls()) + 2, 1) == callres(old(ncalls()) + 1, 1) && unchanged(g.gs)
+//@   ensures success-applied-once: callres(old(ncalls()) + 1, 1) == 0 ==> callfn(old(ncalls()) + 2) == "game.enqueue" && callarg(old(ncalls()) + 2, 0) == callres(old(ncalls()) + 1, 0)
